@@ -18,7 +18,7 @@ SOURCES = [('param/parameterized.py', 'Parameters._cls_parameters'), ('param/par
 BUDGET_S = {'quick': 45, 'thorough': 400}
 EXHAUSTIVE = {'quick': False, 'thorough': False}
 TRUSTED = [
-    'statements in lean/ParamVerif/Props/C13.lean (Inv, InstOk, Agrees; namespace_agrees holds for all histories, failing add_parameter calls included)',
+    'statements in lean/ParamVerif/Props/C13.lean (Inv, InstOk, Agrees; namespace_agrees / C13_full_holds for all histories of the modelled operations, failing add_parameter calls and rejected Parameter-valued class assignments included)',
     'spec-side oracle lean/ParamVerif/Store/NamespaceSpec.lean (decidable restatement of Agrees on observations)',
     'harness/props/c13.py adapter (reports n in X.param, identity of X.param[n] / objects("existing")[n] against inspect.getattr_static '
     'and the per-instance copy, .default, getattr, values(), serialize_parameters(), list(X.param); Parameter identity = creation index)',
@@ -289,7 +289,7 @@ def _directed():
     out.append(('chain3', D3, [{'op': 'newInst', 'c': 2, 'kw': []}, {'op': 'instSet', 'i': 0, 'n': 'y', 'v': 3},
                                {'op': 'instBlock', 'i': 0}, {'op': 'clsSet', 'c': 2, 'n': 'y', 'v': 7},
                                {'op': 'newInst', 'c': 2, 'kw': []}, {'op': 'instBlock', 'i': 1}, {'op': 'instBlock', 'i': 5}], 'all'))
-    # Parameter-valued class assignment (3c67719: like add_parameter, but without rollback when the merge is rejected)
+    # Parameter-valued class assignment = add_parameter (3c67719, 6653662), rejected ones are rolled back
     out.append(('chain3', D3, [{'op': 'clsSetParam', 'c': 0, 'n': 'z', 'd': 3, 'hi': None}], 'end'))
     out.append(('chain3', D3, [R(0), R(1), {'op': 'clsSetParam', 'c': 0, 'n': 'z', 'd': 3, 'hi': None}], 'end'))
     out.append(('chain3', D3, [R(2), {'op': 'clsSetParam', 'c': 1, 'n': 'x', 'd': 2, 'hi': None}], 'end'))
@@ -478,17 +478,5 @@ def shrink(case):
 
 
 def classify(case, impl, fail):
-    """narrow keys of KNOWN_FINDINGS.txt"""
-    import re
-    if fail.get('kind') != 'counterexample' or not isinstance(impl, dict) or 'steps' not in impl:
-        return None
-    m = re.match(r"after step (\d+): (?:class|instance) \d+ '(\w+)'", str(fail.get('why')))
-    if not m:
-        return None
-    k, name = int(m.group(1)), m.group(2)
-    # a Parameter object assigned at class level under that name was rejected by the merge re-validation
-    # (RuntimeError) at or before the failing step: it stays installed, no cache is cleared
-    if any(st['op'] == 'clsSetParam' and st['n'] == name and o['res'] == 'RuntimeError'
-           for st, o in zip(case['steps'][:k + 1], impl['steps'][:k + 1])):
-        return 'rejected-parameter-valued-class-assignment-stays-installed'
+    """no open finding for C13 (all recorded ones are repaired in /repo; their histories are in corpus/C13)"""
     return None
